@@ -40,13 +40,14 @@ func init() {
 }
 
 type ccRound struct {
-	Round     int      `json:"round"`
-	OptLen    int      `json:"option_slice_padding"`
-	SpareCap  int      `json:"option_slice_spare_capacity"`
-	Acceptors int      `json:"acceptors"`
-	Clients   []string `json:"clients"`
-	Wrap      bool     `json:"wrappers"`
-	Seed      int64    `json:"seed"`
+	Round         int      `json:"round"`
+	OptLen        int      `json:"option_slice_padding"`
+	SpareCap      int      `json:"option_slice_spare_capacity"`
+	ListenerState bool     `json:"listener_options_carry_state,omitempty"` // the application put WithState(non-nil) into the listener's option list
+	Acceptors     int      `json:"acceptors"`
+	Clients       []string `json:"clients"`
+	Wrap          bool     `json:"wrappers"`
+	Seed          int64    `json:"seed"`
 }
 
 // rendezvous lets up to n goroutines meet; stragglers are released by a
@@ -133,6 +134,12 @@ func runCCRound(c *engine.Ctx, rd ccRound) {
 	opts := make([]nodeenrollment.Option, 0, len(base)+rd.OptLen+rd.SpareCap)
 	opts = append(opts, base...)
 	opts = append(opts, pads[:rd.OptLen]...)
+	var listenerState, listenerStateCopy *structpb.Struct
+	if rd.ListenerState {
+		listenerState = uniqueState("listener-default", rd.Round)
+		listenerStateCopy = proto.Clone(listenerState).(*structpb.Struct)
+		opts = append(opts, nodeenrollment.WithState(listenerState))
+	}
 
 	// cast
 	var clients []*ccClient
@@ -365,7 +372,13 @@ func runCCRound(c *engine.Ctx, rd ccRound) {
 				if ni.WrappingRegistrationFlowInfo == nil || !proto.Equal(ni.WrappingRegistrationFlowInfo.ApplicationSpecificParams, cl.state) {
 					fail("record-state", "wrapper enrollment: stored application params are not this connection's")
 				}
-				if ni.State != nil && len(ni.State.Fields) > 0 {
+				switch {
+				case rd.ListenerState:
+					// handled alone, this enrollment stores the state the application configured the listener with
+					if !stateEqual(ni.State, listenerStateCopy) {
+						fail("record-state", "wrapper enrollment: stored state is not the state the listener was configured with (fields of another connection's token state?)")
+					}
+				case ni.State != nil && len(ni.State.Fields) > 0:
 					fail("record-state", "wrapper enrollment: record carries state although none was given (another connection's token state)")
 				}
 			default:
@@ -377,6 +390,12 @@ func runCCRound(c *engine.Ctx, rd ccRound) {
 		}
 		if rec.Returned && rec.Conn != nil {
 			rec.Conn.Close()
+		}
+	}
+	if rd.ListenerState {
+		r.Count("rounds_with_state_in_listener_options", 1)
+		if !proto.Equal(listenerState, listenerStateCopy) {
+			r.Violation("isolation:listener-option-state-modified", "the state struct the application passed in the listener's option list was modified while connections were handled", map[string]any{"round": rd})
 		}
 	}
 }
@@ -429,6 +448,7 @@ func runConcurrent(c *engine.Ctx) engine.Result {
 		if i%3 == 0 {
 			rd.SpareCap = 4 + rng.Intn(5) // make sure spare capacity is well represented
 		}
+		rd.ListenerState = i%4 == 2
 		if rd.Acceptors < n {
 			rd.Acceptors = n
 		}
@@ -455,5 +475,6 @@ func runConcurrent(c *engine.Ctx) engine.Result {
 	r.Require("enrollments_checked:token", 10)
 	r.Require("enrollments_checked:wrapper", 5)
 	r.Require("forged_rejected", 5)
+	r.Require("rounds_with_state_in_listener_options", int64(rounds/5))
 	return res
 }
